@@ -2,6 +2,8 @@ package mon
 
 import (
 	"fmt"
+	"os"
+	"path/filepath"
 	"strings"
 	"time"
 
@@ -45,17 +47,38 @@ func runC12(c *core.Ctx) {
 	type job struct {
 		off int
 		now string
+		tz  string // a zone file with a transition (else the fixed-offset file of off)
 	}
 	var jobs []job
 	for _, o := range use {
 		for _, in := range instants {
-			jobs = append(jobs, job{o, in})
+			jobs = append(jobs, job{o, in, ""})
+		}
+	}
+	if c.GoitVFS != "" {
+		// zones with a transition, the clock pinned inside the repeated (or skipped) wall-clock hour around it: the stored
+		// instant is the clock's, the stored offset the one the zone has at that instant
+		const at = 1_700_000_000
+		for i, tr := range [][2]int{{120, 60}, {-240, -300}, {660, 630}, {60, 120}, {-570, -510}, {345, 405}} {
+			p := filepath.Join(c.Scratch, "tz", fmt.Sprintf("transition-%d", i))
+			os.MkdirAll(filepath.Dir(p), 0o777)
+			os.WriteFile(p, gen.TZifTransition(int32(tr[0]*60), int32(tr[1]*60), at), 0o666)
+			for _, d := range []int{-3599, -1800, -1, 0, 1, 1800, 3599} {
+				off := tr[0]
+				if d >= 0 {
+					off = tr[1]
+				}
+				jobs = append(jobs, job{off, fmt.Sprint(at + d), p})
+			}
 		}
 	}
 	c.RunHistories(len(jobs), Registry["C12"].Mons, func(w *core.World) {
 		j := jobs[w.Hist]
 		off := j.off
 		w.TZ = tzs[off]
+		if j.tz != "" {
+			w.TZ = j.tz
+		}
 		if j.now != "" {
 			w.GoitBin = c.GoitVFS
 			w.Env = map[string]string{"VERIF_NOW": j.now}
@@ -162,10 +185,10 @@ func offClass(off int) string {
 
 func init() {
 	register(&Prop{ID: "C06", Level: "exploration", NeedIn: true,
-		Rule:   "(a) in-process, exhaustive over a sub-space: every conflict-free subset P (|P|<=3 quick, <=4 thorough) of a 34-path universe built around the byte order of '/' and regexp metacharacters, inserted through the real Index.Update in seeded random order, then reloaded; for every query q in the universe, its directory prefixes and single components: GetEntry found <=> q in P, IsRegisteredAsDirectory <=> some path beneath q/, GetEntriesByDirectory == the paths beneath q/, no panic; the written file must decode (independent decoder) to exactly P in strictly ascending order; (b) CLI: seeded histories of add/rm/restore/restore --staged/reset/commit; after every command that rewrites .goit/index the file is decoded and checked for canonical form and against ls-files; sampled P: rm/restore/add on every tracked path, tracked directory and near-miss name select exactly the tracked paths beneath; distinct = (P, q) pairs with a non-trivial expected answer + CLI classes",
+		Rule:   "(a) in-process, exhaustive over a sub-space: every conflict-free subset P (|P|<=3 quick, <=4 thorough) of a 34-path universe built around the byte order of '/' and regexp metacharacters, inserted through the real Index.Update in seeded random order, then reloaded; for every query q in the universe, its directory prefixes and single components: GetEntry found <=> q in P, IsRegisteredAsDirectory <=> some path beneath q/, GetEntriesByDirectory == the paths beneath q/, no panic; the written file must decode (independent decoder) to exactly P in strictly ascending order; (b) CLI: seeded histories of add/rm/restore/restore --staged/reset/commit; after every command that rewrites .goit/index the file is decoded and checked for canonical form and against ls-files; after every successful `add` of plain files the decoded paths are exactly the former paths plus the named ones, byte for byte (names that are not valid UTF-8 included); sampled P: rm/restore/add on every tracked path, tracked directory and near-miss name select exactly the tracked paths beneath; distinct = (P, q) pairs with a non-trivial expected answer + CLI classes",
 		Mons:   func() []core.Monitor { return []core.Monitor{C06Mon{}} },
 		Run:    runC06,
-		Floors: []core.Floor{{Key: "C06.getentry", Min: 100000}, {Key: "C06.cli-addressable", Min: 300}, {Key: "C06.file-canonical", Min: 1000}},
+		Floors: []core.Floor{{Key: "C06.getentry", Min: 100000}, {Key: "C06.cli-addressable", Min: 300}, {Key: "C06.file-canonical", Min: 1000}, {Key: "C06.entries-written", Min: 1000}},
 	})
 	register(&Prop{ID: "C12", Level: "exploration", NeedIn: true,
 		Rule:   "(a) in-process: all 105 quarter-hour offsets in [-12:00,+14:00] x instants {0,1,59,86399,1e9,2^31-1,2^31,2^32,253402300799, seeded random} x names x e-mails x message classes: Sign.String() has the Git form with the right digits, NewCommit accepts the commit and returns the same name, e-mail, Unix seconds, zone offset and message; (b) CLI: add+commit under TZ=<synthetic TZif file> for 27+ offsets (quick: every non-whole-hour offset, both extremes, some whole hours; thorough: all 105), also with the clock pinned (VERIF_NOW) at boundary instants through the vfs-rewritten binary; stored author/committer lines, cat-file -p and log -n 1 must agree; distinct = (offset, instant class, message class)",
